@@ -28,6 +28,20 @@ thread_local! { static INIT_INPUTS: std::cell::RefCell<Vec<Vec<Vec<i32>>>> = con
 pub fn set_init_inputs(v: Vec<Vec<Vec<i32>>>) { INIT_INPUTS.with(|i| *i.borrow_mut() = v) }
 pub fn init_inputs(rel: usize) -> Vec<Vec<i32>> { INIT_INPUTS.with(|i| i.borrow().get(rel).cloned().unwrap_or_default()) }
 
+// ------------------------------------------------------------------------------------------------
+// injective renamings of the constant domain into other column types (C06)
+/// a user type whose Hash collides for all values
+#[derive(Clone, PartialEq, Eq, Debug)]
+pub struct Sym(pub i32);
+impl Hash for Sym { fn hash<H: std::hash::Hasher>(&self, state: &mut H) { state.write_u8(0) } }
+pub trait ConstDomain: Clone + Eq + Hash + Send + Sync { fn embed(x: i32) -> Self; fn unembed(&self) -> i32; }
+impl ConstDomain for i64 { fn embed(x: i32) -> i64 { x as i64 * 4_000_000_007 - 17 } fn unembed(&self) -> i32 { ((*self + 17) / 4_000_000_007) as i32 } }
+impl ConstDomain for String { fn embed(x: i32) -> String { format!("const-{}-{}", 9 - x, "x".repeat(x as usize % 3)) } fn unembed(&self) -> i32 { 9 - self.split('-').nth(1).unwrap().parse::<i32>().unwrap() } }
+impl ConstDomain for Sym { fn embed(x: i32) -> Sym { Sym(x * 7 + 1) } fn unembed(&self) -> i32 { (self.0 - 1) / 7 } }
+fn permute(perm: usize, x: i32, n: i32) -> i32 { if perm == 0 { x } else { (n - 1 - x).rem_euclid(n.max(1)) } }
+pub fn conv<T: ConstDomain>(perm: usize, x: i32) -> T { T::embed(permute(perm, x, 2)) }
+pub fn unconv<T: ConstDomain>(perm: usize, t: &T) -> i32 { permute(perm, t.unembed(), 2) }
+
 pub trait VLat: Lattice + Clone + Eq + Hash + Debug + Send + Sync {
     const TY: LatTy;
     fn mk(w: i32) -> Self;
